@@ -1,12 +1,12 @@
 SPECIFICATION Spec
 CONSTANTS
-  MaxSlot = 5
-  MaxVer = 1
-  MaxReorgs = 1
+  MaxSlot = 7
+  MaxVer = 2
+  MaxReorgs = 2
   MaxCrashes = 0
   Gates = {}
   Interleave = FALSE
-  Cfgs <- MCCfgs
+  Cfgs <- MCCfgsOne
   OraclesFor <- MCOraclesA
 INVARIANTS TypeOK JobTimeRight JobCoversExactly NoSlotTwice OneJobPerDutySlot OnlyStrictlyLaterOnStart SyncWindowRight EpochTickOnce NoFutureDutyUnscheduled NoStaleJob ReorgActedOn
 CHECK_DEADLOCK FALSE
